@@ -9,6 +9,18 @@ TB_COMMON = [
 ]
 
 PROPS = {
+    "C05": dict(
+        module="Prom.Props.C05",
+        areas=[dict(area="vec", quick=1500, thorough=60000,
+                    classes=["child-identity", "key-encoding", "error-kind", "wrong-shape-accepted", "wellformed-request-refused",
+                             "remove-result", "collect-mismatch", "fnv-collision", "harness-panic"])],
+        rule="case = one vector (counter/int counter/gauge/int gauge/histogram; 0-3 declared names, 0-2 const labels) + 3-12 operations "
+             "(with_label_values, map form in shuffled key order, remove, reset, update through old handles, collect); tuples are built from one string cut at "
+             "different places, empty values, multi-byte/0x7f/NUL neighbours, the FNV collision pair, wrong cardinality, wrong names; "
+             "non-trivial = the case requests two tuples with equal concatenation (split shifted) or creates >= 2 children; distinct by request text",
+        trusted=["the child key is FNV-1a 64 (modelled exactly, compared with the real key through the cfg(prometheus_verif) accessor verif_key)",
+                 "a child's value is abstracted to the number of updates made through any handle to it"],
+    ),
     "C09": dict(
         module="Prom.Props.C09",
         areas=[dict(area="desc", quick=3000, thorough=100000,
